@@ -112,23 +112,155 @@ def ufit(B, sc, n0, side, U, cls):
         if key in seen:
             continue
         seen.add(key)
-        hyp = side + list(path)
-        if sc.name in ("Gimbal", "Bushing"):
-            hyp.append(sc.c1_nonzero)
-        if sc.name == "Screw":
-            hyp.append(val(sc.params["pitch"]) != 0)      # the fit divides by the pitch (a zero-pitch screw is a Pin; see not_decided)
-        if sc.name == "BendStretch":
-            if path and "Not" not in str(path[0])[:4]:
-                continue                                   # |x| < SignificantReal: the fit leaves u[0] alone by design (singular, documented in the code)
-            hyp.append(val(B.ns["SignificantReal"]) > 0)
+        hyp = ufit_hyps(B, sc, side, path)
+        if hyp is None:
+            continue
         k += 1
         B.prove_eq("%s: setUToFitVelocity(H_FM*u) == u%s" % (L, " (path %d)" % k if len(path) else ""), Vec(u), Vec([D(x) for x in sc.u]), hyp, U,
                    cls + "::setUToFitAngularVelocityImpl/LinearVelocityImpl")
 
 
-def qfit(B, classes, name, opt, U, cls, ctx):
-    """setQToFitTransformImpl(X_FM(q*)) = q with X_FM(q) == X_FM(q*), on every feasible branch of the fit code"""
+# ----------------------------------------------------------------------
+# the six public fit wrappers of RigidBodyNode.h (they reverse the request for a reversed mobilizer and call the *Impl of the node)
+# ----------------------------------------------------------------------
+WRAPPERS = {
+    "setQToFitTransform": r"void setQToFitTransform\s*\(const SBStateDigest& sbs, const Transform& X_FM, Vector& q\)\s*const\s*",
+    "setQToFitRotation": r"void setQToFitRotation\s*\(const SBStateDigest& sbs, const Rotation& R_FM, Vector& q\)\s*const\s*",
+    "setQToFitTranslation": r"void setQToFitTranslation\s*\(const SBStateDigest& sbs, const Vec3& p_FM, Vector& q\)\s*const\s*",
+    "setUToFitVelocity": r"void setUToFitVelocity\s*\(const SBStateDigest& sbs, const Vector& q, const SpatialVec& V_FM, Vector& u\)\s*const\s*",
+    "setUToFitAngularVelocity": r"void setUToFitAngularVelocity\s*\(const SBStateDigest& sbs, const Vector& q, const Vec3& w_FM, Vector& u\)\s*const\s*",
+    "setUToFitLinearVelocity": r"void setUToFitLinearVelocity\s*\(const SBStateDigest& sbs, const Vector& q, const Vec3& v_FM, Vector& u\)\s*const\s*",
+}
+WRAPPER_CALLEES = ["isReversed", "calcAcrossJointTransform", "reverseSpatialVelocity", "reverseAngularVelocity", "setQToFitTransformImpl", "setQToFitRotationImpl",
+                   "setQToFitTranslationImpl", "setUToFitVelocityImpl", "setUToFitAngularVelocityImpl", "setUToFitLinearVelocityImpl"]
+
+
+def add_wrappers(B, Node):
+    for nm, sig in WRAPPERS.items():
+        B.add_method(Node, M.RBN_H, sig, nm, methods=WRAPPER_CALLEES, cxxname="RigidBodyNode::" + nm)
+
+
+# speeds that carry the angular velocity of the mobilizers for which the translation-only / linear-only wrappers are claimed; the remaining ones carry the translation
+ROT_U = {"Free": [0, 1, 2], "Bushing": [0, 1, 2], "Translation": [], "Slider": [], "Cylinder": [0], "Planar": [0]}
+
+
+def ufit_hyps(B, sc, side, path, linear_branch=True):
+    """side conditions of the u-fit round trips (the same for the *Impl and for the wrappers); None = branch not claimed"""
+    hyp = side + list(path)
+    if sc.name in ("Gimbal", "Bushing"):
+        hyp.append(sc.c1_nonzero)
+    if sc.name == "Screw" and linear_branch:
+        hyp.append(val(sc.params["pitch"]) != 0)      # the fit divides by the pitch (a zero-pitch screw is a Pin; see not_decided)
+    if sc.name == "BendStretch" and linear_branch:
+        if path and "Not" not in str(path[0])[:4]:
+            return None                                # |x| < SignificantReal: the fit leaves u[0] alone by design (singular, documented in the code)
+        hyp.append(val(B.ns["SignificantReal"]) > 0)
+    return hyp
+
+
+def wrapped_ufit(B, sc, side, U, cls, rev):
+    """u-fit round trips through the public wrappers RigidBodyNode::setUToFitVelocity / AngularVelocity / LinearVelocity for a forward or a reversed node.
+    The target velocity is the across-joint velocity V_FM = H_FM*u the REAL realize sequence reports for that node (reversed: calcReverseMobilizerH_FM)."""
+    L = sc.label + (" reversed" if rev else "")
+    who = "%s through RigidBodyNode::" % L
+    n0 = sc.pass0(rev, velocity=False)
+    V = SpatialVec(M.vals(n0.V_FM[0]), M.vals(n0.V_FM[1]))
+    ustar = [D(x) for x in sc.u]
+    def uold():
+        return [D(z3.Real("uold%d" % i)) for i in range(sc.dof)]
+    # (1) full spatial velocity: the speeds are reproduced
+    def run():
+        u = uold()
+        n0.setUToFitVelocity(n0.sbs, n0.q, V, u)
+        return u
+    seen, k = set(), 0
+    for path, script, u in B.run_paths(run, 1):
+        key = tuple(str(c) for c in path)
+        if key in seen:
+            continue
+        seen.add(key)
+        hyp = ufit_hyps(B, sc, side, path)
+        if hyp is None:
+            continue
+        k += 1
+        B.prove_eq("%ssetUToFitVelocity: fit of the node's own V_FM = H_FM*u returns u%s" % (who, " (path %d)" % k if len(path) else ""), Vec(u), Vec(ustar), hyp, U,
+                   "RigidBodyNode::setUToFitVelocity + %s::setUToFitAngularVelocityImpl/LinearVelocityImpl" % cls, timeout_ms=60000)
+    # (2)/(3) angular-only and linear-only requests. Speeds: umix = u* on the slots the request determines, the current (arbitrary, uold) speeds elsewhere.
+    #     Target := the angular / linear part of the node's OWN velocity H_FM*umix (real realize sequence). Obligation: the fit started from uold returns exactly
+    #     umix, hence (congruence: realize is a function of (q,u)) the node's velocity after the fit has the requested angular / linear part and the other
+    #     speeds are preserved. (The velocity-level goal itself, a 9th-degree identity in the Euler sines/cosines for the reversed Free/Bushing, does not discharge.)
+    def partial(fit, part, slots, extra, text, linear):
+        def run():
+            u = uold()
+            umix = [ustar[i] if i in slots else u[i] for i in range(sc.dof)]
+            nt = M.realize(sc.node(rev), sc.q0, umix, velocity=False)
+            getattr(n0, fit)(n0.sbs, n0.q, M.vals(nt.V_FM[part]), u)
+            return u, umix
+        seen = set()
+        for path, script, (u, umix) in B.run_paths(run, 1 if (linear and sc.name == "BendStretch") else 0):
+            key = tuple(str(c) for c in path)
+            if key in seen:
+                continue
+            seen.add(key)
+            hyp = ufit_hyps(B, sc, side, path, linear_branch=linear)
+            if hyp is None:
+                continue
+            B.prove_eq("%s%s: %s" % (who, fit, text), Vec(u), Vec(umix), hyp + extra, U, "RigidBodyNode::%s + %s::%sImpl" % (fit, cls, fit), timeout_ms=60000)
+    # which speeds does the angular-only fit of this node write? (read off one symbolic execution: the slots whose content is no longer the old symbol)
+    def probe():
+        u = uold()
+        n0.setUToFitAngularVelocity(n0.sbs, n0.q, V[0], u)
+        return u
+    (path, script, up), = list(B.run_paths(probe, 0))
+    wslots = [i for i in range(sc.dof) if not z3.eq(z3.simplify(val(up[i])), val(uold()[i]))]
+    partial("setUToFitAngularVelocity", 0, wslots, [],
+            "fit of w_FM := angular part of the node's own H_FM*(u* on the slots %s written by the fit, other speeds arbitrary) returns exactly those speeds" % wslots, False)
+    # linear velocity only: mobilizers whose translational speeds can produce any (Slider, Cylinder: axial; Planar: in-plane) linear velocity. The reversed wrapper
+    # "has to assume angular velocity is zero" (its own comment): hypothesis rotational speeds == 0 for the reversed node; none for the forward node.
+    if sc.name in ROT_U:
+        rot = ROT_U[sc.name]
+        zero = [val(uold()[i]) == 0 for i in rot] if rev else []
+        partial("setUToFitLinearVelocity", 1, [i for i in range(sc.dof) if i not in rot], zero,
+                "fit of v_FM := linear part of the node's own H_FM*(rotational speeds %s as they are%s, u* elsewhere) returns exactly those speeds"
+                % (rot, ": hypothesis rotational speeds == 0 (angular velocity zero)" if zero and rot else ""), True)
+
+
+# translation-only q-fit: (mobilizer, option) -> hypothesis on the requested p_FM (components pt0..pt2), None = any target
+QTRANS = [("Free", "euler"), ("Bushing", None), ("Translation", None), ("Planar", None), ("Slider", None), ("Cylinder", None), ("Free", "quat")]
+
+
+def wrapped_qtrans(B, classes, name, opt, U, cls, rev):
+    """RigidBodyNode::setQToFitTranslation: from coordinates whose rotational part is arbitrary (q_rot) the fit to a requested p_FM yields coordinates whose pose
+    (as the REAL realize sequence reports it for the forward / reversed node) has p_FM == requested and R_FM unchanged. Requested p_FM: arbitrary (Free, Bushing,
+    Translation); in the plane of motion, i.e. z == 0 (Planar); along the sliding axis, i.e. (t,0,0) for Slider and (0,0,t) for Cylinder."""
+    sc = M.Scenario(B, classes, name, opt)
+    who = "%s%s through RigidBodyNode::setQToFitTranslation" % (sc.label, " reversed" if rev else "")
+    n0 = sc.pass0(rev, velocity=False)                                   # pose before the fit (rotational part q_rot, translational part arbitrary)
+    pt = Vec(*[z3.Real("pt%d" % i) for i in range(3)])
+    target = {"Planar": [val(pt[2]) == 0], "Slider": [val(pt[1]) == 0, val(pt[2]) == 0], "Cylinder": [val(pt[0]) == 0, val(pt[1]) == 0]}.get(name, [])
+    what = {"Planar": " (target in the plane: z == 0)", "Slider": " (target on the axis: y == z == 0)", "Cylinder": " (target on the axis: x == y == 0)"}.get(name, "")
+    def run():
+        q = list(sc.q0)
+        n0.setQToFitTranslation(n0.sbs, pt, q)
+        return q
+    (path, script, q), = list(B.run_paths(run, 0))
+    assert not path, "unexpected symbolic branch in setQToFitTranslation of %s" % name
+    n2 = M.realize(sc.node(rev), q, None)
+    hyp = sc.side() + target
+    fn = "RigidBodyNode::setQToFitTranslation + %s::setQToFitTranslationImpl" % cls
+    B.prove_eq("%s: p_FM after the fit == requested p_FM%s" % (who, what), n2.X_FM.p(), pt, hyp, U, fn, timeout_ms=60000)
+    B.prove_eq("%s: R_FM after the fit == R_FM before (rotational coordinates arbitrary)%s" % (who, what), n2.X_FM.R(), M.vals(n0.X_FM.R()), hyp, U, fn, timeout_ms=60000)
+    B.guard_sat("%s%s translation-only fit" % (sc.label, " reversed" if rev else ""), hyp, U)
+
+
+def qfit(B, classes, name, opt, U, cls, ctx, rev=False, via="setQToFitTransformImpl"):
+    """setQToFitTransformImpl(X_FM(q*)) = q with X_FM(q) == X_FM(q*), on every feasible branch of the fit code.
+    via = setQToFitTransform / setQToFitRotation: the same round trip through the public wrappers of RigidBodyNode.h on a forward (rev=False) or
+    reversed (rev=True) node: the target is the pose X_FM(q*) the REAL realize sequence reports for that node (reversed: ~X_MF), the result is judged
+    on the pose realize reports for the fitted coordinates. setQToFitRotation: target R_FM(q*) only, only the rotation is claimed."""
     eps = z3.Real("Eps")
+    rot_only = via == "setQToFitRotation"
+    wrapped = via != "setQToFitTransformImpl"
     seen, k = set(), 0
     nbr = {"Gimbal": 2, "Bushing": 2, "Pin": 2, "Cylinder": 2, "Planar": 2, "BendStretch": 3, "Ball:euler": 2, "Free:euler": 2, "Ellipsoid:euler": 2,
            "Ball:quat": 4, "Free:quat": 4}.get(name + (":" + opt if opt in ("euler", "quat") else ""), 0)
@@ -136,10 +268,13 @@ def qfit(B, classes, name, opt, U, cls, ctx):
     def run():
         sc = M.Scenario(B, classes, name, opt)
         S.ENV.assume(z3.And(eps > 0, eps < z3.RealVal("1/8")))
-        n0 = sc.pass0(False, velocity=False)
+        n0 = sc.pass0(rev, velocity=False)
         q = [D(z3.Real("qold%d" % i)) for i in range(n0.nq_in_use())]
         Xt = B.ns["Transform"](n0.X_FM)
-        n0.setQToFitTransformImpl(n0.sbs, Xt, q)
+        if rot_only:
+            n0.setQToFitRotation(n0.sbs, B.ns["Rot"](Xt.R()), q)
+        else:
+            getattr(n0, via)(n0.sbs, Xt, q)
         state["sc"], state["n0"] = sc, n0
         return q
     for path, script, q in B.run_paths(run, nbr):
@@ -160,16 +295,25 @@ def qfit(B, classes, name, opt, U, cls, ctx):
         if s_.check() == z3.unsat:
             continue
         k += 1
-        n2 = M.realize(sc.node(False), q, None)
-        tag = "%s: X_FM(setQToFitTransform(X_FM(q))) == X_FM(q), branch %d%s" % (sc.label, k, " (exact singularity)" if singular and name != "BendStretch" else "")
-        fn = cls + "::setQToFitRotationImpl/TranslationImpl"
+        n2 = M.realize(sc.node(rev), q, None)
+        sing = " (exact singularity)" if singular and name != "BendStretch" else ""
+        if not wrapped:
+            tag = "%s: X_FM(setQToFitTransform(X_FM(q))) == X_FM(q), branch %d%s" % (sc.label, k, sing)
+            fn = cls + "::setQToFitRotationImpl/TranslationImpl"
+        else:
+            who = "%s%s through RigidBodyNode::%s" % (sc.label, " reversed" if rev else "", via)
+            tag = ("%s: R_FM(setQToFitRotation(R_FM(q))) == R_FM(q), branch %d%s" if rot_only else "%s: X_FM(setQToFitTransform(X_FM(q))) == X_FM(q), branch %d%s") % (who, k, sing)
+            fn = "RigidBodyNode::%s + %s::setQToFitRotationImpl%s" % (via, cls, "" if rot_only else "/TranslationImpl")
         B.prove_eq(tag + " [R]", n2.X_FM.R(), M.vals(n0.X_FM.R()), hyp, U, fn, timeout_ms=60000)
-        B.prove_eq(tag + " [p]", n2.X_FM.p(), M.vals(n0.X_FM.p()), hyp, U, fn, timeout_ms=60000)
+        if not rot_only:
+            B.prove_eq(tag + " [p]", n2.X_FM.p(), M.vals(n0.X_FM.p()), hyp, U, fn, timeout_ms=60000)
     return k
 
 
 QFIT = [("Slider", None, 1), ("Translation", None, 1), ("Pin", None, 1), ("Cylinder", None, 1), ("Planar", None, 1), ("BendStretch", None, 1),
-        ("Gimbal", None, 3), ("Bushing", None, 3), ("Ball", "euler", 3), ("Free", "euler", 3), ("Free", "quat", 4), ("Ball", "quat", 4)]
+        ("Gimbal", None, 3), ("Bushing", None, 3), ("Ball", "euler", 3), ("Free", "euler", 3)]
+# quaternion q-fits (Ball/Free[quat]: setQToFitRotation through convertRotationToQuaternion, 4 sqrt branches) are NOT claimed in either tier: 77 min and some
+# goals undecided in the thorough tier (coordinator's run); the converter round trip itself is proved in C27. See ctx.not_decided.
 
 
 def main(ctx):
@@ -182,6 +326,7 @@ def main(ctx):
                      methods=["setQToFitRotationImpl", "setQToFitTranslationImpl"], cxxname="RigidBodyNodeSpec<dof>::setQToFitTransformImpl (default)")
         B.add_method(Node, M.RBNS_H, r"void setUToFitVelocityImpl\(const SBStateDigest& sbs, const Vector& q,\s*const SpatialVec& V_FM, Vector& u\) const override\s*", "setUToFitVelocityImpl",
                      methods=["setUToFitAngularVelocityImpl", "setUToFitLinearVelocityImpl"], cxxname="RigidBodyNodeSpec<dof>::setUToFitVelocityImpl (default)")
+        add_wrappers(B, Node)
         B.dump_sources()
     except ExtractionError as e:
         ctx.undecide("extraction: %s" % e)
@@ -202,6 +347,8 @@ def main(ctx):
             ctx.add(Obligation("guard:%s side conditions satisfiable" % key, "guards", "z3", "discharged" if s.check() == z3.sat else "undecided", 0, "reachability guard"))
             if name != "Ellipsoid":
                 ufit(B, sc, n0, side, U, cls)
+                for rev in (False, True):
+                    wrapped_ufit(B, sc, side, U + (".reversed" if rev else "") + ".wrap", cls, rev)
         except ExtractionError as e:
             ctx.undecide("%s: %s" % (key, e))
         except errs as e:
@@ -220,6 +367,39 @@ def main(ctx):
             ctx.undecide("%s qfit: %s" % (key, e))
         except errs as e:
             ctx.undecide("%s qfit: symbolic execution of the transliterated code failed: %r" % (key, e))
+    # the same q-fit round trips through the public wrappers (forward and reversed nodes), the rotation-only and the translation-only wrappers
+    for name, opt, minpaths in QFIT:
+        key = name + (":" + opt if opt else "")
+        if opt == "quat" and ctx.tier != "thorough":
+            continue
+        for rev in (False, True):
+            for via in ("setQToFitTransform", "setQToFitRotation"):
+                unit = "mob.%s%s.wrap.%s" % (key, ".reversed" if rev else "", "qfit" if via == "setQToFitTransform" else "rfit")
+                if only and not re.search(only, unit):
+                    continue
+                try:
+                    k = qfit(B, classes, name, opt, unit, classes[name].__name__, ctx, rev=rev, via=via)
+                    need = minpaths if via == "setQToFitTransform" else min(minpaths, 1)
+                    if k < need:
+                        ctx.undecide("%s: only %d feasible branches of %s explored, expected >= %d" % (unit, k, via, need))
+                except ExtractionError as e:
+                    ctx.undecide("%s: %s" % (unit, e))
+                except errs as e:
+                    ctx.undecide("%s: symbolic execution of the transliterated code failed: %r" % (unit, e))
+    for name, opt in QTRANS:
+        key = name + (":" + opt if opt else "")
+        if opt == "quat" and ctx.tier != "thorough":
+            continue
+        for rev in (False, True):
+            unit = "mob.%s%s.wrap.tfit" % (key, ".reversed" if rev else "")
+            if only and not re.search(only, unit):
+                continue
+            try:
+                wrapped_qtrans(B, classes, name, opt, unit, classes[name].__name__, rev)
+            except ExtractionError as e:
+                ctx.undecide("%s: %s" % (unit, e))
+            except errs as e:
+                ctx.undecide("%s: symbolic execution of the transliterated code failed: %r" % (unit, e))
     ctx.units.append(dict(unit="mob.*", backend="z3 QF_NRA", obligations=len(ctx.obligations)))
     ctx.checker_cmds.append("z3 (python API, QF_NRA, 20-60 s/obligation); SMT-LIB files in out/C05/smt2; cvc5 re-check in thorough tier")
     ctx.trust("z3 4.x / cvc5 1.0 (QF_NRA)")
